@@ -301,7 +301,7 @@ def judge_oversize(world, op, sess, out, pre_vols, max_volume):
 
 # ----------------------------------------------------------------------------- generation
 FAULT_KINDS = ["reject.underflow", "reject.overflow", "reject.oversize", "reject.invalid",
-               "interrupt.line", "interrupt.line", "interrupt.line"]
+               "interrupt.line", "interrupt.line", "interrupt.line", "interrupt.save"]
 
 
 class Program:
@@ -401,9 +401,15 @@ class Program:
                 return self.set_wl_max(), False
             if r < 0.30:
                 return self.other_worklist(), False
+            if r < 0.34 or (self.fault_kind == "interrupt.save" and i == self.n_prefix - 1):
+                return {"op": "save_main"}, False
             return self.liquid_op(sess, "ok"), False
         if i == self.n_prefix:
             fk = self.fault_kind
+            if fk == "interrupt.save":
+                # the terminal operation is an explicit save to the worklist's own path, cut short by an interrupt;
+                # what counts is the file the real __exit__ then writes
+                return {"op": "save_main"}, True
             if fk == "interrupt.line":
                 return self.liquid_op(sess, "ok"), True
             if fk == "reject.invalid":
@@ -486,8 +492,8 @@ def explore(rng, tier, stats):
     # pass 1: generation pass (for rejections this *is* the faulted execution)
     res = execute(world, prog.source, None, want_lines=True, trace_all=(tier == "thorough"))
     ops = res.ops
-    label = prog.fault_kind if prog.fault_kind != "interrupt.line" else "none"
-    if prog.fault_kind != "interrupt.line":
+    label = prog.fault_kind if prog.fault_kind not in ("interrupt.line", "interrupt.save") else "none"
+    if prog.fault_kind not in ("interrupt.line", "interrupt.save"):
         if res.failed and res.exc_type in ("VolumeUnderflowError", "VolumeOverflowError"):
             label = "reject.underflow" if res.exc_type == "VolumeUnderflowError" else "reject.overflow"
         elif res.failed and res.exc_type == "InvalidOperationError":
@@ -512,8 +518,8 @@ def explore(rng, tier, stats):
     # Interrupts are injected into valid terminal operations *and* into terminal operations that end in a
     # rejection (an emit-then-roll-back pattern is only visible when the abort arrives between the emit and
     # the refusal): the doomed operation is cut short at a line before its own exception.
-    doomed = prog.fault_kind != "interrupt.line" and res.failed and len(ops) == prog.n_prefix + 1
-    if ((prog.fault_kind == "interrupt.line" and not res.failed) or doomed) and res.terminal_lines > 0 \
+    doomed = prog.fault_kind not in ("interrupt.line", "interrupt.save") and res.failed and len(ops) == prog.n_prefix + 1
+    if ((prog.fault_kind in ("interrupt.line", "interrupt.save") and not res.failed) or doomed) and res.terminal_lines > 0 \
             and not res.violations:
         n = res.terminal_lines
         stats.lines += n
